@@ -22,13 +22,13 @@ void run(const char* type) {
         fdrive_binary<V, T>("C10", type, ("sub" + sfx).c_str(), pairs, [](V a, V b) { return avel::to_array(a - b); }, [](T a, T b, T& o) { volatile T x = a, y = b; volatile T r = x - y; o = r; return true; }, eq);
         fdrive_binary<V, T>("C10", type, ("mul" + sfx).c_str(), pairs, [](V a, V b) { return avel::to_array(a * b); }, [](T a, T b, T& o) { volatile T x = a, y = b; volatile T r = x * y; o = r; return true; }, eq);
         fdrive_binary<V, T>("C10", type, ("div" + sfx).c_str(), pairs, [](V a, V b) { return avel::to_array(a / b); }, [](T a, T b, T& o) { volatile T x = a, y = b; volatile T r = x / y; o = r; return true; }, eq);
-        fdrive_binary<V, T>("C10", type, ("add_assign" + sfx).c_str(), pairs, [](V a, V b) { V& r = (a += b); return avel::to_array(r); }, [](T a, T b, T& o) { volatile T x = a, y = b; volatile T r = x + y; o = r; return true; }, eq);
-        fdrive_binary<V, T>("C10", type, ("sub_assign" + sfx).c_str(), pairs, [](V a, V b) { V& r = (a -= b); return avel::to_array(r); }, [](T a, T b, T& o) { volatile T x = a, y = b; volatile T r = x - y; o = r; return true; }, eq);
-        fdrive_binary<V, T>("C10", type, ("mul_assign" + sfx).c_str(), pairs, [](V a, V b) { V& r = (a *= b); return avel::to_array(r); }, [](T a, T b, T& o) { volatile T x = a, y = b; volatile T r = x * y; o = r; return true; }, eq);
-        fdrive_binary<V, T>("C10", type, ("div_assign" + sfx).c_str(), pairs, [](V a, V b) { V& r = (a /= b); return avel::to_array(r); }, [](T a, T b, T& o) { volatile T x = a, y = b; volatile T r = x / y; o = r; return true; }, eq);
+        fdrive_binary<V, T>("C10", type, ("add_assign" + sfx).c_str(), pairs, [](V a, V b) { auto&& r = (a += b); return avel::to_array(V(r)); }, [](T a, T b, T& o) { volatile T x = a, y = b; volatile T r = x + y; o = r; return true; }, eq);
+        fdrive_binary<V, T>("C10", type, ("sub_assign" + sfx).c_str(), pairs, [](V a, V b) { auto&& r = (a -= b); return avel::to_array(V(r)); }, [](T a, T b, T& o) { volatile T x = a, y = b; volatile T r = x - y; o = r; return true; }, eq);
+        fdrive_binary<V, T>("C10", type, ("mul_assign" + sfx).c_str(), pairs, [](V a, V b) { auto&& r = (a *= b); return avel::to_array(V(r)); }, [](T a, T b, T& o) { volatile T x = a, y = b; volatile T r = x * y; o = r; return true; }, eq);
+        fdrive_binary<V, T>("C10", type, ("div_assign" + sfx).c_str(), pairs, [](V a, V b) { auto&& r = (a /= b); return avel::to_array(V(r)); }, [](T a, T b, T& o) { volatile T x = a, y = b; volatile T r = x / y; o = r; return true; }, eq);
         fdrive_unary<V, T>("C10", type, ("sqrt" + sfx).c_str(), vals, [](V a) { return avel::to_array(avel::sqrt(a)); }, [](T a, T& o) { o = Libm<T>::sqrt()(a); return true; }, eq);
-        fdrive_unary<V, T>("C10", type, ("pre_inc" + sfx).c_str(), vals, [](V a) { V& r = ++a; return avel::to_array(r); }, [](T a, T& o) { volatile T x = a, one = 1; volatile T r = x + one; o = r; return true; }, eq);
-        fdrive_unary<V, T>("C10", type, ("pre_dec" + sfx).c_str(), vals, [](V a) { V& r = --a; return avel::to_array(r); }, [](T a, T& o) { volatile T x = a, one = 1; volatile T r = x - one; o = r; return true; }, eq);
+        fdrive_unary<V, T>("C10", type, ("pre_inc" + sfx).c_str(), vals, [](V a) { auto&& r = ++a; return avel::to_array(V(r)); }, [](T a, T& o) { volatile T x = a, one = 1; volatile T r = x + one; o = r; return true; }, eq);
+        fdrive_unary<V, T>("C10", type, ("pre_dec" + sfx).c_str(), vals, [](V a) { auto&& r = --a; return avel::to_array(V(r)); }, [](T a, T& o) { volatile T x = a, one = 1; volatile T r = x - one; o = r; return true; }, eq);
         fdrive_unary<V, T>("C10", type, ("post_inc" + sfx).c_str(), vals, [](V a) { a++; return avel::to_array(a); }, [](T a, T& o) { volatile T x = a, one = 1; volatile T r = x + one; o = r; return true; }, eq);
         fdrive_unary<V, T>("C10", type, ("post_inc_ret" + sfx).c_str(), vals, [](V a) { V old = a++; return avel::to_array(old); }, [](T a, T& o) { o = a; return true; }, eq);
         fdrive_unary<V, T>("C10", type, ("post_dec" + sfx).c_str(), vals, [](V a) { a--; return avel::to_array(a); }, [](T a, T& o) { volatile T x = a, one = 1; volatile T r = x - one; o = r; return true; }, eq);
